@@ -225,9 +225,11 @@ bool Instance::setup_environment(unsigned int flags) {
     env->successor_script = successor_script;
     // the pay-to-script-hash pattern is honoured where a scriptPubKey is: not in a scriptSig (a scriptPubKey follows), and
     // not in a witness script or a tapscript, which consensus runs as they are
-    if (successor_script.size() || sigver != SigVersion::BASE) env->is_p2sh = false;
+    // (a scriptSig stays one when the scriptPubKey it is followed by is the empty script)
+    const bool is_scriptsig = script_is_scriptsig || successor_script.size();
+    if (is_scriptsig || sigver != SigVersion::BASE) env->is_p2sh = false;
     // with SIGPUSHONLY a scriptSig that is not push-only is refused before anything is evaluated
-    if (successor_script.size() && (flags & SCRIPT_VERIFY_SIGPUSHONLY) && !script.IsPushOnly()) {
+    if (is_scriptsig && (flags & SCRIPT_VERIFY_SIGPUSHONLY) && !script.IsPushOnly()) {
         error = SCRIPT_ERR_SIG_PUSHONLY;
         env->operational = false;
     }
@@ -638,6 +640,7 @@ bool Instance::configure_tx_txin() {
         sigver = SigVersion::BASE;
         script = scriptSig;
         successor_script = scriptPubKey;
+        script_is_scriptsig = true;
     }
 
     // // extract pubkeys from script
